@@ -245,7 +245,7 @@ pub fn grow_cases(tier: &str) -> Vec<GrowCase> {
 // ------------------------------------------------------------------------------------------
 // C24
 
-pub const FAULTS: [&str; 5] = ["null-read", "null-write", "write-to-address-1", "unbounded-recursion", "unbounded-recursion-inside-grown-segment"];
+pub const FAULTS: [&str; 7] = ["null-read", "null-write", "write-to-address-1", "unbounded-recursion", "unbounded-recursion-inside-grown-segment", "write-to-address-1-inside-grown-segment", "null-read-inside-grown-segment"];
 
 #[derive(Clone, Debug)]
 pub struct FaultCase {
@@ -322,7 +322,14 @@ pub fn exec_fault(c: &FaultCase, em: &mut Emitter) {
                         let r = SchedulableCoroutine::maybe_grow_with(120 * 1024, 64 * 1024, move || {
                             let co = SchedulableCoroutine::current().expect("current");
                             *sg2.lock().unwrap() = co.stack_infos().iter().map(|i| (i.stack_bottom, i.stack_top)).collect();
-                            dive(0) as usize
+                            match FAULTS[cc.fault] {
+                                "write-to-address-1-inside-grown-segment" => unsafe {
+                                    std::ptr::write_volatile(1 as *mut u8, 1);
+                                    1
+                                },
+                                "null-read-inside-grown-segment" => unsafe { usize::from(std::ptr::read_volatile(std::ptr::null::<u8>())) },
+                                _ => dive(0) as usize,
+                            }
                         });
                         r.ok()
                     }
@@ -407,7 +414,7 @@ pub fn judge_fault(c: &FaultCase, res: &ChildResult, rep: &mut Report) {
         return;
     }
     // wild accesses at shallow depth are not overflows
-    if c.fault <= 2 && !inside {
+    if (c.fault <= 2 || c.fault >= 5) && !inside {
         rep.machinery_errors.push(format!("stk.fault: a wild access was observed with sp outside the segments ({})", c.to_json()));
     }
     rep.witness(if inside { "faults_inside_segments" } else { "faults_outside_segments" });
